@@ -253,10 +253,8 @@ func RunC09(r *core.Run) {
 					return
 				}
 			}
-			if !pfIs(c.LastHVal, gen.Span{S: nas[0].V.S, E: nas[nv-1].V.E}) {
-				fail("pai-list-hval", fmt.Sprintf("ParseAllPAIValues: LastHVal %v, the header value spans [%d,%d)", c.LastHVal, nas[0].V.S, nas[nv-1].V.E), "")
-				return
-			}
+			// (LastHVal is not among the things the statement lists; the header value it feeds is
+			// judged where it becomes observable: Hdr.Val in C05/C07)
 		} else {
 			for cc := -1; cc <= nv+1; cc++ {
 				o := &contactsObj{}
@@ -305,10 +303,6 @@ func RunC09(r *core.Run) {
 					return
 				} else if what, fnd := cmpNA(gl, &nas[nv-1], buf, sipsp.HdrContact); what != "" {
 					fail("contact-list-last", fmt.Sprintf("capacity %d: GetContact(N-1): %s", cc, what), fnd)
-					return
-				}
-				if !pfIs(c.LastHVal, gen.Span{S: nas[0].V.S, E: nas[nv-1].V.E}) {
-					fail("contact-list-hval", fmt.Sprintf("capacity %d: LastHVal %v, the header value spans [%d,%d)", cc, c.LastHVal, nas[0].V.S, nas[nv-1].V.E), "")
 					return
 				}
 			}
